@@ -100,5 +100,59 @@ theorem new_toInt (d : BitVec 64) :
   rw [tdiv_lit] at e1 ⊢
   split at e1 <;> rename_i h0 <;> simp only [h0, if_true, if_false] <;> omega
 
+/-! ### `time.Unix` normalisation (the hand-written stdlib contract `GoTime.unix`) -/
+
+/-- the nanosecond field of `time.Unix(sec, nsec)` is always in `[0, 10^9)`, and — unless the
+seconds overflow int64 — `sec'·10^9 + nsec' = sec·10^9 + nsec` with `sec' = sec + ⌊nsec / 10^9⌋`. -/
+theorem unix_toInt (sec nsec : BitVec 64) :
+    (GoTime.unix sec nsec).WF ∧
+    (GoTime.unix sec nsec).nsec.toInt = nsec.toInt % 1000000000 ∧
+    (inInt64 (sec.toInt + nsec.toInt / 1000000000) →
+      (GoTime.unix sec nsec).unix.toInt = sec.toInt + nsec.toInt / 1000000000) := by
+  have hN := BitVec.le_toInt nsec
+  have hN' := BitVec.toInt_lt (x := nsec)
+  unfold GoTime.unix GoTime.Time.WF
+  dsimp only
+  -- n := nsec / 1e9 and nsec - n*1e9: no wrap-around
+  generalize hq : BitVec.sdiv nsec 1000000000#64 = q
+  have q1 : q.toInt = if 0 ≤ nsec.toInt then nsec.toInt / 1000000000 else -((-nsec.toInt) / 1000000000) := by
+    have e1 : q.toInt = (nsec.toInt.tdiv 1000000000).bmod (2^64) := by
+      rw [← hq, BitVec.toInt_sdiv]; rfl
+    rw [bmod64, tdiv_lit] at e1
+    split at e1 <;> rename_i h0 <;> simp only [h0, if_true, if_false] <;> omega
+  generalize hr : nsec - q * 1000000000#64 = r
+  have r1 : r.toInt = nsec.toInt - q.toInt * 1000000000 := by
+    have e2 : r.toInt = (nsec.toInt - (q.toInt * 1000000000).bmod (2^64)).bmod (2^64) := by
+      rw [← hr, BitVec.toInt_sub, BitVec.toInt_mul]; rfl
+    rw [bmod64, bmod64] at e2
+    split at q1 <;> omega
+  have r2 : (r + 1000000000#64).toInt = r.toInt + 1000000000 := by
+    have e5 : (r + 1000000000#64).toInt = (r.toInt + 1000000000).bmod (2^64) := by
+      rw [BitVec.toInt_add]; rfl
+    rw [bmod64] at e5
+    split at q1 <;> omega
+  have hS := BitVec.le_toInt sec
+  have hS' := BitVec.toInt_lt (x := sec)
+  generalize hs : sec + q = s1
+  have s1i : inInt64 (sec.toInt + q.toInt) → s1.toInt = sec.toInt + q.toInt := by
+    have e3 : s1.toInt = (sec.toInt + q.toInt).bmod (2^64) := by rw [← hs]; exact BitVec.toInt_add _ _
+    rw [bmod64] at e3
+    simp only [inInt64, minInt64, maxInt64]
+    omega
+  have s2i : inInt64 (sec.toInt + q.toInt - 1) → (s1 - 1#64).toInt = sec.toInt + q.toInt - 1 := by
+    have e3 : s1.toInt = (sec.toInt + q.toInt).bmod (2^64) := by rw [← hs]; exact BitVec.toInt_add _ _
+    have e4 : (s1 - 1#64).toInt = (s1.toInt - 1).bmod (2^64) := by
+      rw [BitVec.toInt_sub]; rfl
+    rw [bmod64] at e3 e4
+    simp only [inInt64, minInt64, maxInt64]
+    omega
+  simp only [inInt64, minInt64, maxInt64] at s1i s2i ⊢
+  simp only [Bool.or_eq_true, BitVec.slt_iff_toInt_lt, BitVec.sle_iff_toInt_le, BitVec.reduceToInt]
+  split at q1
+  all_goals
+    repeat' split
+    all_goals
+      dsimp only
+      refine ⟨?_, ?_, ?_⟩ <;> omega
 
 end WktTime
